@@ -313,6 +313,14 @@ class Evo:
             {"method": "verif/push%dNotification" % k, "messageDirection": "serverToClient", "params": st()},
             {"method": "verif/notificationCenter%d" % k, "typeName": "NotificationCenter%dNotification" % k, "messageDirection": "clientToServer", "params": st()},
         ]
+        # a repeated word at the namespace border (verif/verifPreview next to verif/preview), no typeName
+        reqs += [
+            {"method": "verif/verifPreview%d" % k, "messageDirection": "clientToServer", "params": st(), "result": NUL},
+            {"method": "verif/preview%d" % k, "messageDirection": "clientToServer", "params": st(), "result": NUL},
+        ]
+        # registration options on messages of every direction
+        reqs.append({"method": "verif/selectionContext%d" % k, "typeName": "SelectionContext%dRequest" % k, "messageDirection": "serverToClient", "params": st(), "result": NUL, "registrationOptions": R("TextDocumentRegistrationOptions")})
+        nots.append({"method": "verif/didChangeSelection%d" % k, "typeName": "DidChangeSelection%dNotification" % k, "messageDirection": "both", "params": st(), "registrationOptions": R("TextDocumentRegistrationOptions")})
         self.d["requests"] += reqs
         self.d["notifications"] += nots
         for q in reqs + nots:
@@ -469,6 +477,11 @@ class Evo:
         self.new_structs.append(nm2)
         self.touched.add(nm2)
         self.log.append("E10 %s Rust-keyword-named properties %s" % (nm2, rk))
+        nm3 = self.name(True)
+        self.d["structures"].append({"name": nm3, "properties": [{"name": k_, "type": B("boolean"), "optional": True} for k_ in RUSTKW]})
+        self.new_structs.append(nm3)
+        self.touched.add(nm3)
+        self.log.append("E10 %s one optional property per Rust keyword (%d)" % (nm3, len(RUSTKW)))
 
     def E11(self):
         """anonymous literal types in the three positions the LSP metamodel uses them (property type,
@@ -495,6 +508,13 @@ class Evo:
             {"name": "scopeChoice", "type": {"kind": "or", "items": [lit(), NUL]}},
             {"name": "listChoice", "type": {"kind": "or", "items": [{"kind": "array", "element": lit()}, NUL]}},
             {"name": "clientDetail", "type": lit(), "optional": True},
+            # literals of the SAME shape (member names, kinds, optionality) whose members refer to different types
+            {"name": "symbolKindSet", "type": {"kind": "literal", "value": {"properties": [{"name": "valueSet", "type": {"kind": "array", "element": R("SymbolKind")}, "optional": True}]}}, "optional": True},
+            {"name": "completionKindSet", "type": {"kind": "literal", "value": {"properties": [{"name": "valueSet", "type": {"kind": "array", "element": R("InsertTextMode")}, "optional": True}]}}, "optional": True},
+            {"name": "visibleSpans", "type": {"kind": "array", "element": {"kind": "literal", "value": {"properties": [{"name": "start", "type": R("Position")}, {"name": "end", "type": R("Position")}]}}}, "optional": True},
+            {"name": "selectedSpan", "type": {"kind": "or", "items": [{"kind": "literal", "value": {"properties": [{"name": "start", "type": R("Range")}, {"name": "end", "type": R("Range")}]}}, NUL]}},
+            # a literal whose OPTIONAL member comes first
+            {"name": "orderedDetail", "type": {"kind": "literal", "value": {"properties": [{"name": "prefix", "type": B("string"), "optional": True}, {"name": "priority", "type": B("uinteger")}, {"name": "column", "type": B("uinteger")}]}}},
             # string literals without any cased letter (as jsonrpc's "2.0")
             {"name": "protocolTag", "type": {"kind": "stringLiteral", "value": "2.0"}},
             {"name": "revisionTag", "type": {"kind": "stringLiteral", "value": "1"}},
